@@ -105,14 +105,16 @@ PENDING = {}
 # Added after seed rounds 7-8: each "X only under G" rule also has its converse (DESIGN.md, Changes, "Converse directions").
 TECH_BOTH_WAYS = {
     'C01': '; the table is extracted from change_state with can_change inlined; must-pass-through rules in both directions '
-           '(every update reaches the table unfiltered, every payload of an active sender reaches apply_many)',
+           '(every update reaches the table unfiltered, every payload of an active sender reaches apply_many); epoch-sensitive '
+           'data-flow rules (the decoded member list is handed over entry by entry, the dispatch reads the identity current at that moment)',
     'C06': '; scratch/ownership discipline of the send buffer (cleared before use, put back on every exit) and of the '
            'helper-selection buffer as sub-conditions of the assertions they discharge',
     'C07': '; the datagram buffer starts empty on every path; serialize_member encodes one member into a fresh Vec',
     'C08': '; exact (zero-split) transition table; payload-order preservation of Notification::to_owned; leave_cluster '
            'always ends Defunct; the TurnUndead reaction is not vetoed by the rest of the datagram',
     'C09': '; payload consumers only after (never before) the sender check; every item of a batch is handed over',
-    'C10': '; converse must-pass-through: every own-identity update and every TurnUndead path reaches handle_self_update',
+    'C10': '; converse must-pass-through: every own-identity update and every TurnUndead path reaches handle_self_update; '
+           'the batch dispatch compares with the identity read after the last &mut-self call (no snapshot across a renewal)',
     'C11': '; converse of the epoch guard: a current-epoch timeout always attempts the update',
     'C12': '; relay table in both directions (only-if and always), justified-refusal rule for evidence, '
            'round-starts-iff-target rule',
@@ -122,7 +124,8 @@ TECH_BOTH_WAYS = {
            'omitted only for the stated reasons)',
     'C16': '; accepted-implies-queued; the attachment gate in both directions',
     'C17': '; the epoch-bump rule of C13 is re-run so that "stale" means "of an earlier epoch"',
-    'C18': '; sender-recorded-before-reaction rule; conflict-direction rule re-run',
+    'C18': '; sender-recorded-before-reaction rule; conflict-direction rule re-run; fan-out rule for triggered rounds '
+           '(targets chosen into a cleared or fresh buffer, so at most the configured number of sends)',
     'C20': '; the bounded flavor refuses only what does not fit',
 }
 
